@@ -57,6 +57,9 @@ Init == /\ cfg \in Configs /\ phase = "idle" /\ wrote = 0 /\ status = "none" /\ 
 
 \* the client writes the command up to (and including) a synchronising literal announcement
 Announce == /\ phase = "idle" /\ phase' = "announced" /\ UNCHANGED <<cfg, wrote, status, alive>>
+\* a command may carry several literals (APPEND: the mailbox name, then the message): once one has been granted and
+\* written the client goes on with the command up to the next synchronising literal announcement
+AnnounceAgain == /\ phase = "sent" /\ phase' = "announced" /\ wrote' = 0 /\ UNCHANGED <<cfg, status, alive>>
 \* ... or the whole command at once (no synchronising literal)
 SendAll == /\ phase = "idle" /\ phase' = "sent" /\ UNCHANGED <<cfg, wrote, status, alive>>
 
@@ -73,13 +76,13 @@ ServerComplete == /\ phase = "sent" /\ phase' = "done" /\ status' = "OK"
 \* after a refusal the client goes on with other commands on the same connection
 NextCommand == /\ phase = "refused" /\ phase' = "done" /\ UNCHANGED <<cfg, wrote, status, alive>>
 
-Next == Announce \/ SendAll \/ ServerGrant \/ ServerRefuse \/ (\E n \in {1, LitMax, LitMax + 1} : WritePayload(n))
+Next == Announce \/ AnnounceAgain \/ SendAll \/ ServerGrant \/ ServerRefuse \/ (\E n \in {1, LitMax, LitMax + 1} : WritePayload(n))
         \/ ServerComplete \/ NextCommand
 
 Spec == Init /\ [][Next]_vars
 
 \* ---- properties --------------------------------------------------------------------
-PayloadOnlyAfterGrant == [][wrote' # wrote => phase = "granted"]_vars
+PayloadOnlyAfterGrant == [][(wrote' # wrote /\ wrote' # 0) => phase = "granted"]_vars
 NoPayloadAfterRefusal == phase \in {"refused"} => wrote = 0
 RefusalIsLocal == status = "NO" => alive
 EndsUsable == phase = "done" => alive /\ status \in {"OK", "NO"}
